@@ -1088,6 +1088,13 @@ def expr_suite(ctx, n_grammar: int, n_pairs: int, n_raw: int, deep: bool) -> Non
             nonstr.append(f"{v!r}->{r[1]}")
     if nonstr:
         ctx.notes.append("non-str expression (outside the property's quantifier) escapes with: " + ", ".join(nonstr))
+    # ... but the two CALLERS take their condition from stage data (JSON), where a malformed condition may just as well be a
+    # bool, a number, a list or a dict: "a malformed condition can skip a branch but cannot crash a stage"
+    for v in (True, False, 0, 5, 1.5, ["x"], [], {"a": 1}, {}, b"x", ("x",), 10 ** 30):
+        cx = gen_context(rng)
+        for what, sig in caller_monitor(v, cx, py_eval(v, dict(cx))):
+            hits.add(what, sig + ":non-str-condition", {"kind": "caller-nonstr", "condition": repr(v), "context": cx})
+        ctx.count({"caller-nonstr": repr(v)}, True)
     flush()
     hits.flush(ctx)
 
@@ -1132,6 +1139,12 @@ def replay_case(ctx, body: dict, verbose: bool = False) -> list[tuple[str, str]]
             print(f"  evaluate_expression({shown}, {json.dumps(context, default=str)[:200]})")
             print("  -> " + (f"value {res[1]!r}"[:200] if res[0] == "v" else f"raised {type(res[2]).__name__}: {str(res[2])[:120]}"))
         found = found + caller_monitor(text, copy.deepcopy(context), res)
+    elif kind == "caller-nonstr":
+        v = ast.literal_eval(body["condition"])
+        context = body.get("context", {})
+        found = [(w, sg + ":non-str-condition") for w, sg in caller_monitor(v, copy.deepcopy(context), py_eval(v, dict(context)))]
+        if verbose:
+            print(f"  callers with the non-string condition {v!r}: {found or 'no crash'}")
     else:
         raise ValueError(f"unknown replay kind {kind!r}")
     return found
